@@ -1,4 +1,5 @@
 import Ledger.Proofs.CtrlImport
+import Ledger.Proofs.CtrlReplayHist
 import Ledger.Proofs.CtrlExamples
 
 /-!
@@ -6,8 +7,11 @@ import Ledger.Proofs.CtrlExamples
 
 `step` = one write through `forgeLog`; `runHist` = a sequential history.
 `replay` = `Export` (logs in id order) followed by `Import` / `importLog` into an
-empty ledger.  The full replay statement is FALSE on the unchanged code (two
-counterexamples below); what holds is stated as `…_partial`.
+empty ledger.  The unconditional replay statement is FALSE on the unchanged code
+(four counterexamples below, one per way in which `importLog` differs from the live
+write path); `replay_reproduces` proves it for ALL histories and ALL log kinds under
+the decidable hypothesis `replaySafe` (`Ledger/Ctrl/Replay.lean`), which excludes
+exactly those four.
 -/
 namespace Ledger.C08
 open Ledger.Ctrl Ledger.Core Ledger.Ctrl.Examples
@@ -45,17 +49,62 @@ theorem log_ids_increase (strict : Bool) (ops : List Op) :
     (runHist strict {} ops).db.logs.Pairwise (fun a b => a.id < b.id) :=
   (runHist_inv strict {} ops Inv.empty).logSorted
 
-/-- `replay_reproduces` is FALSE: an account first created by a metadata save under a
-    schema gets the chart's default metadata live, not on replay. -/
+/-- **Replay reproduces the ledger.**  For every sequential history (failing, dry-run
+    and idempotent operations included) whose committed logs are all `logSafe`
+    (`replaySafe`, decidable: `Ledger/Ctrl/Replay.lean`), exporting the journal and
+    importing it into an empty ledger — at ANY import clock `now'` — succeeds and
+    yields exactly the same tables: transactions (ids, dates, post-commit volumes,
+    reverted-at), accounts (metadata and the three dates), volumes, schemas, logs.
+    By induction over the history; per log kind, `importLog` on the tables the write
+    started from is shown to produce the tables the write ended with
+    (`Ledger/Proofs/CtrlReplay.lean`). -/
+theorem replay_reproduces (strict : Bool) (now' : Time) (ops : List Op) (hsafe : replaySafe strict {} ops = true) :
+    (importLogs now' {} (exportLogs (runHist strict {} ops))).2 = none ∧
+    (importLogs now' {} (exportLogs (runHist strict {} ops))).1.db = (runHist strict {} ops).db :=
+  replay_reproduces_safe strict now' ops hsafe
+
+/-- The same for one committed write, from ANY tables with a key-sorted
+    `accounts_volumes`: `importLog` of the log it produced, run on the tables it
+    started from, ends with the tables it ended with. -/
+theorem replay_reproduces_step (now now' : Time) (hn : String) (f : Faults) (strict : Bool) (kind : OpKind)
+    (ik ihash sv : String) (n : Nat) (st0 st : RunSt) (log : Log) (sqR : Seqs)
+    (h : run now hn f (runLog strict kind ik ihash sv n) st0 = (.ok log, st))
+    (hw : Ledger.Base.Map.WF st0.db.volumes) (hsafe : logSafe st0.db st.db log = true) :
+    eval now' (importLog log) st0.db sqR = some ((), st.db, sqR) :=
+  (runLog_replay now now' hn f strict kind ik ihash sv n st0 st log sqR h hw hsafe).1
+
+/-- Without `replaySafe` the statement is FALSE (1): an account first created by a
+    metadata save under a schema gets the chart's default metadata live, not on replay. -/
 theorem replay_reproduces_counterexample :
     (replay (runHist true {} histDefaults)).2 = none ∧
     (replay (runHist true {} histDefaults)).1.db ≠ (runHist true {} histDefaults).db := by decide +kernel
 
-/-- `replay_reproduces` is FALSE, second way: replaying a metadata save lowers the
-    first usage of an account whose (future-dated) first usage is later than the save. -/
+/-- FALSE (2): replaying a metadata save lowers the first usage of an account whose
+    (future-dated) first usage is later than the save. -/
 theorem replay_reproduces_counterexample_dates :
     (replay (runHist true {} histDates)).2 = none ∧
     (replay (runHist true {} histDates)).1.db ≠ (runHist true {} histDates).db := by decide +kernel
+
+/-- FALSE (3): replaying an account `DELETE_METADATA` stamps `updated_at` with the
+    import's clock (here 0), the live ledger has the delete's date. -/
+theorem replay_reproduces_counterexample_restamp :
+    (replay (runHist false {} histRestamp)).2 = none ∧
+    (replay (runHist false {} histRestamp)).1.db ≠ (runHist false {} histRestamp).db := by decide +kernel
+
+/-- FALSE (4): a Numscript run that locks the balance of an account it then does not
+    use (`GetBalances`: `INSERT (0,0) … ON CONFLICT DO NOTHING`) leaves a zero
+    `accounts_volumes` row in the live ledger; the replay never creates it. -/
+theorem replay_reproduces_counterexample_locked_row :
+    (replay (runHist false {} histLocked)).2 = none ∧
+    (replay (runHist false {} histLocked)).1.db.volumes ≠ (runHist false {} histLocked).db.volumes := by decide +kernel
+
+/-- `replaySafe` rejects each of the four witnesses (it excludes nothing else: see
+    `logSafe`), and accepts a history with every kind of write, failing operations,
+    an idempotency key and a revert. -/
+theorem replaySafe_exact_on_witnesses :
+    replaySafe true {} histDefaults = false ∧ replaySafe true {} histDates = false ∧
+    replaySafe false {} histRestamp = false ∧ replaySafe false {} histLocked = false ∧
+    replaySafe true {} histSafe = true := by decide +kernel
 
 /-- What holds for the one divergent payload (account SET_METADATA): the replayed
     row equals the live row when the account exists with a first usage not after
@@ -75,6 +124,10 @@ theorem replay_reproduces_partial_new (w : Time) (accounts : Ledger.Base.Map Str
 /-! non-vacuity -/
 example : (step false s1 (pay false)).2.isError = false ∧ (step false s1 (pay false)).1.db.logs.length = 2 := by decide
 example : (step false s1 overdraw).2.isError = true := by decide
+-- `replay_reproduces` instantiated (all seven payload kinds in the journal)
+example : (importLogs 0 {} (exportLogs (runHist true {} histSafe))).1.db = (runHist true {} histSafe).db :=
+  (replay_reproduces true 0 histSafe (by decide +kernel)).2
+example : (runHist true {} histSafe).db.logs.length = 8 := by decide +kernel
 -- a replay that does reproduce: no metadata-created account
 example : (replay (runHist false {} [{ kind := .createP {} [⟨"world", "bank", 100, "USD"⟩] false, now := 10 }, pay false])).1.db =
     (runHist false {} [{ kind := .createP {} [⟨"world", "bank", 100, "USD"⟩] false, now := 10 }, pay false]).db := by
